@@ -254,6 +254,36 @@ def run(ctx):
         if real != spec:
             ctx.spec_fail('crossjoin|differs', 'crossjoin is not the product of the squared-up tables',
                           {'op': 'crossjoin', 'tables': repr(ts), 'missing': repr(missing), 'real': real, 'spec': spec})
+    # ---- argument forms the model does not speak: natural keys over integer field names, presorted=True
+    for ci in range(300 if ctx.thorough() else 60):
+        L, R, lkey, rkey, natural = gen_pair(rng, ctx.thorough())
+        # (a) a natural join whose common field is named by an integer equals the join on the positions of that field
+        iname = rng.choice([0, 1, 2021, -1])
+        kp = gen.INT_KEYS + [None, 'a']
+        Li = gen.table(rng, [iname, 'lx'], pools={0: kp, 1: gen.TEXT}, maxn=5, ragged=0.0)
+        Ri = gen.table(rng, ['ry', iname], pools={1: kp, 0: gen.TEXT}, maxn=5, ragged=0.0)
+        for kind, fn in FN.items():
+            a = util.run_show(lambda: getattr(etl, fn)(Li, Ri))
+            b = util.run_show(lambda: getattr(etl, fn)(Li, Ri, lkey=0, rkey=1))
+            ctx.case((fn, 'int-named-natural-key', repr(Li), repr(Ri)) if len(Li) > 2 and len(Ri) > 2 else None)
+            ctx.count('natural-key:int-name')
+            if a != b:
+                ctx.spec_fail('%s|natural-key|int-field-name' % fn, '%s without key arguments on a common field named %r differs from the join on that field' % (fn, iname),
+                              {'op': fn, 'left': repr(Li), 'right': repr(Ri), 'natural': a, 'by_position': b})
+        # (b) presorted=True on inputs sorted by the key is the default call (ragged rows included)
+        try:
+            Ls, Rs = list(etl.sort(L, lkey)), list(etl.sort(R, rkey))
+        except Exception:   # noqa
+            continue
+        for kind, fn in FN.items():
+            kw = {'lkey': lkey, 'rkey': rkey}
+            a = util.run_show(lambda: getattr(etl, fn)(L, R, **kw))
+            b = util.run_show(lambda: getattr(etl, fn)(Ls, Rs, presorted=True, **kw))
+            ctx.case((fn, 'presorted', repr(L), repr(R)) if len(L) > 2 and len(R) > 2 else None)
+            ctx.count('presorted')
+            if a != b:
+                ctx.spec_fail('%s|presorted|differs' % fn, '%s(presorted=True) on key-sorted inputs differs from the default call' % fn,
+                              {'op': fn, 'left_sorted': repr(Ls), 'right_sorted': repr(Rs), 'lkey': repr(lkey), 'rkey': repr(rkey), 'default': a, 'presorted': b})
 
 
 def replay(d):
